@@ -311,4 +311,24 @@ PROPS = {
         "assumptions": ["exceptions between append_input_task and the bookkeeping of the helper task (MemoryError/KeyboardInterrupt) are not covered"],
         "explanation": "structure restoration of backward simulation",
     },
+
+    "C20": {
+        "inv": ["BaseSubProjectTask.set_all_attributes_from_json", "BaseSubProjectTask.set_work_amount_progress_of_unit_step_time",
+                "BaseProject.remove_absence_time_list", "BaseTask.perform", "BaseWorkflow.__check_working", "BaseWorkflow.__check_finished"],
+        "static": COMMON_STATIC + ["c20_ceil_lemma"],
+        "level_text": "set_all_attributes_from_json is verified: a project that was not simulated successfully is refused (result (-1, 1 day), "
+                      "task attributes untouched: frame at that return site); otherwise the work amount is the loaded project's time AFTER "
+                      "remove_absence_time_list, whose verified contract (C18) makes it the common log length with the in-range absence "
+                      "steps deleted. set_work_amount_progress_of_unit_step_time: rate = parent unit / sub-project unit. Run lemmas: an "
+                      "automatic free task starts as soon as it is READY (C06b), loses exactly its rate per working step (C02), finishes at "
+                      "the first step with remaining < tol (C06d). Arithmetic lemma (z3, quantifier-free): that step count is ceil(D/p) "
+                      "outside the band frac(D/p) in (0, tol/p).",
+        "level_note": "BaseProject() and read_simple_json are TRUSTED (file I/O); the loaded result of a successful run is assumed aligned and "
+                      "well-formed. The composition of the run lemmas into `occupies exactly ceil(..) consecutive working steps` is a written "
+                      "argument. `Needing no workers`: __allocate skips automatic tasks syntactically (`if not task.auto_task`).",
+        "design_ref": "DESIGN.md section 6 C20",
+        "assumptions": ["TRUSTED: BaseProject.__init__, BaseProject.read_simple_json (contract assumed: loaded successful result is aligned)",
+                        "excluded band of width tol/p (A1)", "composition of the run lemmas not mechanised"],
+        "explanation": "sub-project task configuration and duration",
+    },
 }
